@@ -1,6 +1,7 @@
 package main
 
 import (
+	"os"
 	"strings"
 
 	"golang.org/x/tools/go/ssa"
@@ -164,7 +165,44 @@ func c16r1(r *R) {
 	o.OK("%d normal exits, exactly one increment on each", res.Exits)
 }
 
+// handshakeErrorPropagates: tlsHandshakeWithTimeout reports what HandshakeContext reported — the error itself or an error
+// wrapping it; nil only when the handshake returned nil. (A shadowed or filtered error makes a failed handshake look
+// like a success: the connection is then served and counted ok="1".)
+func handshakeErrorPropagates(r *R) {
+	c := r.C
+	hs := c.Method("pkg/proxyserver", "Server", "tlsHandshakeWithTimeout")
+	if hs == nil {
+		return // handshake done in place: the count rules read the HandshakeContext result directly
+	}
+	o := r.Ob("C16.R2", "handshake-error-propagates:"+funcName(hs)).At(hs.Pos())
+	n := 0
+	for _, ra := range c.returnAlts(hs, 0) {
+		n++
+		o.AtI(ra.Ret)
+		if os.Getenv("FPCHECK_DEBUG_C16") != "" {
+			println("C16 hs return:", ra.E, "||", strings.Join(ra.Lits, " ; "))
+		}
+		isCall := strings.HasPrefix(ra.E, "(*crypto/tls.Conn).HandshakeContext(")
+		wraps := strings.HasPrefix(ra.E, "errtext\"") && strings.Contains(ra.E, "⟨%w⟩") && strings.Contains(ra.E, "(*crypto/tls.Conn).HandshakeContext(")
+		switch {
+		case isCall || wraps:
+		case ra.E == "nil":
+			ok := false
+			for _, l := range ra.Lits {
+				if pos, a, op, b, okp := parseRelLit(l); okp && (a == "nil" || b == "nil") && strings.Contains(a+b, "(*crypto/tls.Conn).HandshakeContext(") && (op == "==") == pos {
+					ok = true
+				}
+			}
+			o.Check(ok, "tlsHandshakeWithTimeout returns nil under %v without the handshake having returned nil", ra.Lits)
+		default:
+			o.Fail("tlsHandshakeWithTimeout returns %s, want the result of HandshakeContext (or an error wrapping it)", ra.E)
+		}
+	}
+	o.Check(n > 0, "tlsHandshakeWithTimeout has no return")
+}
+
 func c16r2(r *R) {
+	handshakeErrorPropagates(r)
 	c := r.C
 	_, _, sc := serveLoop(r)
 	n := 0
